@@ -46,6 +46,7 @@ fn rec_kinds() -> Vec<Vec<u8>> {
         rec(0xffff, "127.0.0.1".parse().unwrap(), 0, 0, 1400),
         rec(1, "0.0.0.0".parse().unwrap(), 2, 3, 4),
         rec(0x8000, "fe80::1".parse().unwrap(), 0x7fff, 128, 65535),
+        rec(7, "::ffff:8.8.8.8".parse().unwrap(), 9, 64, 8),
     ]
 }
 
